@@ -11,7 +11,7 @@ Helper lemmas: `Lemmas/RoutingBuild.lean`.
 -/
 import WzVerif.Lemmas.RoutingBuild
 import WzVerif.Lemmas.RoutingRedirect
-import WzVerif.Lemmas.RoutingRender2
+import WzVerif.Lemmas.RoutingRender3
 namespace Wz.Props.C04
 open Wz Wz.Routing
 
@@ -122,26 +122,28 @@ example : normFloat (asciiNum "-12.25".toList) = "-12.25".toList ∧ '%' ∉ "-1
 
 /-! ### rule level: what a rule builds, the rule itself matches back -/
 
-/-- **rule_build_match_partial.** For a rule without subdomain rule and without path converter
-(`IsoToks`: isolating converters, literals without '/'): whatever URL path text `Rule.build` assembles
-from `values` (defaults folded in), a server's percent-decoding of it is admitted DIRECTLY by the
-rule's own compiled parts, and the groups the parts extract are exactly the decoded converter outputs
-`unquote(to_url(value))`, in order — the texts `to_python` is then applied to (`toPython_toUrl_*`).
+/-- **rule_build_match_partial.** For a rule of the property's grammar without subdomain rule
+(`GramToks`: isolating converters, literals without '/', optionally one path converter followed by
+literal text and slashes only): whatever URL path text `Rule.build` assembles from `values` (defaults
+folded in), a server's percent-decoding of it is admitted DIRECTLY by the rule's own compiled parts,
+and the groups the parts extract are exactly the decoded converter outputs `unquote(to_url(value))`, in
+order — the texts `to_python` is then applied to (`toPython_toUrl_*`).
 Hypotheses = the canonical domain: every `to_url` output is percent-quoted or free of '%'
-(`UrlsClosed`; F04a is the complement), and every decoded text is accepted by its converter's regex
-and contains no '/'. -/
+(`UrlsClosed`; F04a is the complement); every decoded text is accepted by its converter's regex; the
+values of isolating converters contain no '/'; a path value does not leave a '/' in front of the
+rule's final slash (`PathTailOK`: paths not ending with '/'). -/
 theorem rule_build_match_partial (r : Rule) (values : List (Str × Value)) {pp : List Part} {pc : List (Str × Conv)} {u : Str}
     (hparts : r.parts = .static [] :: pp) (hparse : parseRule r.pathToks = some (pp, pc))
-    (hiso : IsoToks r.pathToks)
+    (hgram : GramToks r.pathToks)
     (hbuild : buildSide r values (traceToks r.pathToks) = .ok u)
     (hclosed : UrlsClosed r values r.pathToks)
     (hdom : ∀ ts, valueTexts r values r.pathToks = some ts →
-      (∀ t ∈ ts, noSlash t) ∧ AllAccept ((tokConvs r.pathToks).map Conv.kind) ts) :
+      IsoNoSlash r.pathToks ts ∧ PathTailOK r.pathToks ts ∧ AllAccept ((tokConvs r.pathToks).map Conv.kind) ts) :
     ∃ ts, valueTexts r values r.pathToks = some ts ∧
       walkVia .direct r.parts (segments [] (unquote u)) = some ts ∧
       admitsGroups r (segments [] (unquote u)) = some ts := by
   obtain ⟨ts, text, hts, hrender, hcl⟩ := buildSide_closed r values r.pathToks hbuild hclosed
-  obtain ⟨hns, hacc⟩ := hdom ts hts
+  obtain ⟨hns, htail, hacc⟩ := hdom ts hts
   have hp0 : PendOK {} none := by
     refine ⟨rfl, rfl, ?_, ?_, ?_, ?_, ?_⟩
     · intro _ _ _ h; cases h
@@ -149,7 +151,7 @@ theorem rule_build_match_partial (r : Rule) (values : List (Str × Value)) {pp :
     · simp [noSlash]
     · intro _ h; cases h
     · intro _; rfl
-  have hw := parse_render_admits r.pathToks {} none ts hp0 hiso hparse hrender hns hacc
+  have hw := parse_render_admits_gram r.pathToks {} none ts hp0 hgram htail hparse hrender hns hacc
   simp only [pendText, List.nil_append, Option.getD_none, List.append_nil, Option.toList_none] at hw
   rw [← hcl.unquote] at hw
   have hfull : walkVia .direct r.parts (segments [] (unquote u)) = some ts := by
@@ -166,13 +168,30 @@ def exSpec : RuleSpec :=
 
 def exValues : List (Str × Value) := [("n".toList, .int (-5)), ("s".toList, .str "a b;?#%é".toList)]
 
+def exSpecPath : RuleSpec :=
+  { toks := [.slash, .lit "w".toList, .slash, .var (.string 1 none (some 2)) "l".toList, .slash, .lit "p-".toList,
+             .var .path "rest".toList, .lit ".txt".toList, .slash, .lit "edit".toList, .slash],
+    endpoint := "w".toList }
+
+def exValuesPath : List (Str × Value) := [("l".toList, .str "de".toList), ("rest".toList, .str "a b/ü/%2F".toList)]
+
 -- non-vacuity: `/r/id-<int(fixed_digits=3, signed=True):n>.html/<string:s>/` with n = -5, s = 'a b;?#%é':
 -- every hypothesis holds, the built text is '/r/id--05.html/a%20b;%3F%23%25%C3%A9/'
 example : (match bindRule {} 0 exSpec with
     | some r =>
       (match r.parts, parseRule r.pathToks, buildSide r exValues (traceToks r.pathToks) with
        | .static [] :: pp, some (pp', _), .ok u =>
-         pp == pp' && buildDomainB r exValues && u == "/r/id--05.html/a%20b;%3F%23%25%C3%A9/".toList
+         pp == pp' && buildDomainGB r exValues && u == "/r/id--05.html/a%20b;%3F%23%25%C3%A9/".toList
+       | _, _, _ => false)
+    | none => false) = true := by decide +kernel
+
+-- ... and with a path converter in the middle of a branch rule:
+-- `/w/<string(length=2):l>/p-<path:rest>.txt/edit/` with rest = 'a b/ü/%2F'
+example : (match bindRule {} 0 exSpecPath with
+    | some r =>
+      (match r.parts, parseRule r.pathToks, buildSide r exValuesPath (traceToks r.pathToks) with
+       | .static [] :: pp, some (pp', _), .ok u =>
+         pp == pp' && buildDomainGB r exValuesPath && u == "/w/de/p-a%20b/%C3%BC/%252F.txt/edit/".toList
        | _, _, _ => false)
     | none => false) = true := by decide +kernel
 
@@ -180,9 +199,9 @@ example : (match bindRule {} 0 exSpec with
 --   matchAdapter (readBuilt (adapterBuild endpoint vals)) = matched r vals
 -- and build_match_fixpoint — build (match (build r vals)) = build r vals.
 -- Proved here: the value-level halves (`unquote_quote` for literal text and string/path values,
--- `toPython_toUrl_*` for every converter) and the rule-level half for rules without path converter
+-- `toPython_toUrl_*` for every converter) and the rule-level half for every rule of the grammar
 -- (`rule_build_match_partial`: the rule's own parts admit what the rule builds, with the decoded
--- converter outputs as groups). Missing: the same for a trailing path converter, and the rule-selection
+-- converter outputs as groups; isolating converters and one path converter). Missing: the rule-selection
 -- argument at map level (`suitable_for` + `build_compare_key` pick a rule; on a non-overlapping map
 -- C03.match_sound / match_priority then force the matcher to return that rule). Both laws are checked on the real code and on the model by
 -- stream `build-match` (oracle: match(unquote(build)) = (endpoint, values) and build(match(url)) = url).
